@@ -770,6 +770,10 @@ impl Entry<EntryIncremental, EntryNew> {
                         cnf_ent.add_ava(Attribute::Uuid, Value::Uuid(new_uuid));
                         cnf_ent.add_ava(Attribute::Class, EntryClass::Recycled.into());
                         cnf_ent.add_ava(Attribute::Class, EntryClass::Conflict.into());
+                        // Memberships are derived locally and never replicated: drop the
+                        // copies so the conflict entry is the same on every replica.
+                        cnf_ent.attrs.remove(&Attribute::MemberOf);
+                        cnf_ent.attrs.remove(&Attribute::DirectMemberOf);
 
                         // Bypass add_ava here so that we don't update the ecstate with the
                         // metadata of these attrs.
@@ -784,10 +788,20 @@ impl Entry<EntryIncremental, EntryNew> {
                         // This is okay because conflict entries aren't subject
                         // to schema anyway.
                         let Entry {
-                            valid: EntryInvalid { cid: _, ecstate },
+                            valid: EntryInvalid { cid: _, ecstate: _ },
                             state,
                             attrs,
                         } = cnf_ent;
+
+                        // The conflict entry is a new entry created by this transaction, so
+                        // every attribute must carry this change id. If it kept the change
+                        // ids of the entry it was copied from, a consumer that already holds
+                        // those changes would be sent only the attributes altered above and
+                        // would store a fragment of the conflict entry.
+                        let mut ecstate = EntryChangeState::new_without_schema(cid, &attrs);
+                        ecstate.retain(|attr, _| {
+                            *attr != Attribute::LastModifiedCid && *attr != Attribute::CreatedAtCid
+                        });
 
                         let cnf_ent = Entry {
                             valid: EntrySealed {
@@ -1206,6 +1220,10 @@ impl Entry<EntryInvalid, EntryCommitted> {
     {
         self.add_ava(Attribute::Class, EntryClass::Recycled.into());
         self.add_ava(Attribute::Class, EntryClass::Conflict.into());
+        // As with any recycled entry, drop the locally derived memberships. They are never
+        // replicated, so keeping them would make this conflict differ between replicas.
+        self.purge_ava(Attribute::MemberOf);
+        self.purge_ava(Attribute::DirectMemberOf);
         // Add all the source uuids we conflicted against.
         for source_uuid in iter {
             self.add_ava(Attribute::SourceUuid, Value::Uuid(source_uuid));
